@@ -4,7 +4,7 @@
    ceil(log2 side), 2^n_pooling | side, positive base/sum channel counts; every theorem quantifies over ALL
    such configurations (any side, any depthwise flags, any channel counts, any weights). *)
 From Coq Require Import List ZArith Bool Ring.
-From DV Require Import Model.Dgc Proofs.DgcFacts Proofs.DgcGeom Proofs.DgcEval Proofs.DgcMain.
+From DV Require Import Model.Dgc Model.DgcAsg Proofs.DgcFacts Proofs.DgcGeom Proofs.DgcEval Proofs.DgcMain Proofs.DgcNorm.
 Import ListNotations.
 Open Scope Z_scope.
 
@@ -72,7 +72,7 @@ Section C17_eval.
 
   (* each class output marginalises every pixel exactly: the sum over the values of pixel (px,py) of the
      output equals the output with that pixel missing (leaf families with a finite value list `dom`).
-     Iterating over all pixels and ending with C17_all_missing_zero gives total mass one. *)
+     Iterated over all pixels in C17_normalised. *)
   Theorem C17_class_marginal : forall g, admissible g ->
       forall wt rw (V : Type) (dom : list V) px py lfv lfm k,
         0 <= px < cf_side g -> 0 <= py < cf_side g ->
@@ -83,19 +83,31 @@ Section C17_eval.
         eval_root T t0 t1 tadd tmul wt lfm rw (s_ls (build g)) (s_c (build g)) (s_side (build g)) k.
   Proof. exact (sec_class_marginal T t0 t1 tadd tmul SRth). Qed.
 
-  (* C17_normalised_partial: the statement "the sum over ALL joint pixel values is one" is not stated as one
-     formula; it is the iteration of C17_class_marginal over the D*D pixels followed by
-     C17_all_missing_zero.  Missing: the fold over the pixel list, and Gaussian leaves (integrals). *)
-  Theorem C17_normalised_partial : forall g, admissible g ->
-      forall wt rw (V : Type) (dom : list V) px py lfv lfm k,
-        0 <= px < cf_side g -> 0 <= py < cf_side g ->
-        (forall v c h w, (h =? px) && (w =? py) = false -> lfv v c h w = lfm c h w) ->
-        (forall c, zsum T t0 tadd (map (fun v => lfv v c px py) dom) = lfm c px py) ->
-        (forall c h w, lfm c h w = t1) ->
+  (* normalised density: for every admissible configuration, normalised sum/root weights and leaf tables
+     `leaf c h w` over a finite value list `dom` whose values add up to the value used for a missing cell
+     (= one), class output k summed over ALL assignments of all D x D pixels is one.
+     (`sum_compl` nests one sum over `dom` per pixel of `pixels D`, Model/DgcAsg.v; `out` is `eval_root` on the
+     base-layer outputs `lf_of leaf a` induced by the assignment.)  Real Gaussian leaves need integrals
+     instead of finite sums: that step is not formalised (docs/notes_C17.md). *)
+  Theorem C17_normalised : forall g, admissible g ->
+      forall wt rw (V : Type) (dom : list V) (leaf : Z -> Z -> Z -> option V -> T) k,
+        (forall c h w, zsum T t0 tadd (map (fun v => leaf c h w (Some v)) dom) = leaf c h w None) ->
+        (forall c h w, leaf c h w None = t1) ->
         wnorm T t0 t1 tadd wt (s_ls (build g)) -> root_norm g T t0 t1 tadd rw k ->
-        zsum T t0 tadd (map (fun v : V => eval_root T t0 t1 tadd tmul wt (lfv v) rw (s_ls (build g))
-                                                   (s_c (build g)) (s_side (build g)) k) dom) = t1.
-  Proof. exact (sec_normalised_partial T t0 t1 tadd tmul SRth). Qed.
+        sum_compl V T t0 tadd dom (pixels (cf_side g))
+                  (out g T t0 t1 tadd tmul wt rw V leaf k) (asg_none V) = t1.
+  Proof. exact (fun g Hadm wt rw V dom leaf k Hl Hn => total_mass_one g Hadm T t0 t1 tadd tmul SRth wt rw V dom leaf Hl Hn k). Qed.
+
+  (* the marginal of any duplicate-free set of missing pixels is the sum over their completions *)
+  Theorem C17_marginal_completions : forall g, admissible g ->
+      forall wt rw (V : Type) (dom : list V) (leaf : Z -> Z -> Z -> option V -> T) k,
+        (forall c h w, zsum T t0 tadd (map (fun v => leaf c h w (Some v)) dom) = leaf c h w None) ->
+        forall ps, NoDup ps ->
+          (forall p, In p ps -> 0 <= fst p < cf_side g /\ 0 <= snd p < cf_side g) ->
+          forall a, (forall p, In p ps -> a (fst p) (snd p) = None) ->
+            sum_compl V T t0 tadd dom ps (out g T t0 t1 tadd tmul wt rw V leaf k) a =
+            out g T t0 t1 tadd tmul wt rw V leaf k a.
+  Proof. exact (fun g Hadm wt rw V dom leaf k Hl => iter_marg_pixels g Hadm T t0 t1 tadd tmul SRth wt rw V dom leaf Hl k). Qed.
 End C17_eval.
 
 (* mpe returns torch.where(isnan(x), estimate, x): an observed cell is returned unchanged (definitional on
@@ -119,6 +131,7 @@ Print Assumptions C17_smooth.
 Print Assumptions C17_decomposable.
 Print Assumptions C17_all_missing_zero.
 Print Assumptions C17_class_marginal.
-Print Assumptions C17_normalised_partial.
+Print Assumptions C17_normalised.
+Print Assumptions C17_marginal_completions.
 Print Assumptions C17_mpe_keeps_observed.
 Print Assumptions C17_indivisible_refuted.
